@@ -138,6 +138,12 @@ func (c *stateCtx) runCase(it item, path string) (o outcome) {
 		o.class, o.result = "n/a", "n/a"
 		return
 	}
+	if path == "header" && c.mode.HdrKnown && d.Seq == "gap" {
+		// the header of the valid block is known already, so the header at tip+2
+		// extends the header chain correctly: not a corruption in this mode
+		o.class, o.result = "n/a", "n/a"
+		return
+	}
 	ctl, err := c.control()
 	if err != nil {
 		o.harness = "control replica: " + err.Error()
